@@ -4,7 +4,9 @@ CONSTANTS
   Threads = {1, 2}
   MaxOps = 3
   Kinds = {"w", "c", "b"}
-  Manual = TRUE
+  ManualKs = TRUE
+  ManualDb = FALSE
+  PersistShortcut = FALSE
   MaxFaults = 0
   EnPersistCall = TRUE
   FixPoisonAppend = TRUE
